@@ -36,11 +36,12 @@ CLAIMED = {
     "C05": dict(
         text="Lean theorems over the reals, for ALL coordinates: an atom placed by find_coordinates lies at its template distance from every fit atom up to that atom's fit residual (| |new-P| - |h-p| | <= |T p - P|); atoms placed by one fit are at exactly their template distance and distinct template points stay distinct; "
         "rotate_tetrahedral keeps every rotated atom's distance to both bond atoms and to the other rotated atoms for every angle, three 120-degree turns or +120/-120 return every atom (the probing rotations move nothing); make_atom_with_no_bonds places the atom exactly 1 A away; "
+        "the neighbour pointers behind the template atoms N+1 / C-1 (update_bonds: peptideLink) are set together and exactly for bonded residues when both atoms of the peptide bond exist (peptide_link_spec; refuted when one is missing: known finding); "
         "the third hydrogen of an XH3 group (rebuild_tetrahedral with two present, as repaired by 4b2b694) is for ALL positions of the existing two exactly one slot from the first and at least half a slot from the second (third_hydrogen_clear); "
         "in every variant of the kernel-checked C04 table a torsion change keeps every bond length and bond angle with all atoms present, hydrogens included (added atoms stay attached); "
         "rebuilt heavy atoms (Model/RepairFit.lean: get_nearest_bonds and repair_heavy's choice of the three fit atoms, kernel tables over the regenerated topology): for every amino-acid definition a side chain truncated at any atom, the carbonyl O and every leaf atom are rebuilt from three atoms pairwise within two template bonds, i.e. from a fit that no torsion of the structure can spoil (truncated_rebuild_fits_local, carbonyl_O_and_leaves_fit_local); refuted for an atom missing from the middle of a flexible chain (single_missing_middle_atom_refuted: known finding); every hydrogen placed by the superposition route of add_hydrogens is fitted locally at every chain position when the heavy atoms are complete (hydrogen_fits_local). "
         "Tie/oracle: every observed find_coordinates / rotate_tetrahedral / make_atom_with_no_bonds call vs the Float model (1e-9), the residual inequality evaluated at every observed fit, every observed torsion change checked for all bonded and 1-3 distances, "
-        "every observed third-hydrogen placement vs the model (Float); get_nearest_bonds vs the model for every atom of every definition (3 787), the three atoms every observed repair_heavy / add_hydrogens fit used vs the model's fitAtoms, every fit point paired with the atom its template point names (neighbours taken from the chain order), "
+        "every pointer pair update_bonds sets vs the model; every observed third-hydrogen placement vs the model (Float); get_nearest_bonds vs the model for every atom of every definition (3 787), the three atoms every observed repair_heavy / add_hydrogens fit used vs the model's fitAtoms, every fit point paired with the atom its template point names (neighbours taken from the chain order), "
         "and on the returned biomolecule every added atom's bond lengths (within the largest fit residual of its residue), bond angles (hydrogens and rebuilt heavy atoms: within input distortion + 20 degrees; groups of three hydrogens 3 degrees) and 0.5 A separation.",
         note="the choice of fit atoms is modelled for repair_heavy and for the superposition route of add_hydrogens; for rebuild_tetrahedral and optimize.py it is read from the monitored calls, not modelled; final-state tolerances are the oracle's reading of 'within the distortion already present'; no nucleic-acid structure offline",
         ref="DESIGN.md §4 C05",
